@@ -38,4 +38,17 @@ CLAIMS = {
         "int(IPv4Address). Scenario-file loading of rules is checked under C20, not here.",
         "technique": "symbolic execution of the real code (CrossHair+z3) + AST-to-SMT translation of the address kernel (z3 BV32), counterexamples replayed",
     },
+    "C18": {
+        "engine": "symex+py2smt",
+        "text": "Engine S: real Link/NIC/SwitchPort objects, frame sizes and bandwidth as unbounded solver numbers, the "
+        "receiver stubbed so that (under solver-chosen flags) it replies over the same link before returning and "
+        "accepts or rejects; after every send current_load and the data actually carried are <= bandwidth, the load "
+        "is zero after pre_timestep, nothing crosses a link with a disabled end. Engine T: can_transmit_frame and "
+        "transmit_frame translated from source to FP64 and decided for all finite doubles (admission formula; load "
+        "after accounting stays in [0,bw] with nested admitted traffic).",
+        "note": "Bounds: 2 top-level sends with nested replies to depth 2 (quick); FakeFrame instead of Frame (size "
+        "comes from pydantic-core's serializer); AirSpace/wireless channel accounting is read but only covered in the "
+        "thorough tier. Trusted: CrossHair/z3, py2smt translator (validated against the real Link on a grid each run).",
+        "technique": "symbolic execution of the real code (CrossHair+z3) + AST-to-SMT translation of admission/accounting (z3 FP64), counterexamples replayed",
+    },
 }
